@@ -356,6 +356,7 @@ func genScript(t *rapid.T) Script {
 			g.sc.Ops = append(g.sc.Ops, op)
 		}
 	}
+	g.sc.FailRelIndex = rapid.IntRange(0, 5).Draw(t, "fail-rel-index") == 0
 	nops := rapid.IntRange(3, 30).Draw(t, "nops")
 	for k := 0; k < nops; k++ {
 		switch c := rapid.IntRange(0, 19).Draw(t, "kind"); {
